@@ -364,7 +364,17 @@ func (fr *Frame) execSlice(ins *ssa.Slice, st *State) {
 			arr = vc.fresh("sub", "(Array Int "+es+")")
 			vc.assume(st.pc, fmt.Sprintf("(forall ((i Int)) (! (=> (>= i 0) (= (select %s i) (select %s (+ i %s)))) :pattern ((select %s i))))", arr, xa, l, arr))
 		}
-		fr.env[ins] = Val{t: vc.define(regName(ins), sn, vc.mkSlice(st, ins.Type(), arr, fmt.Sprintf("(- %s %s)", h, l), fmt.Sprintf("(and (nil_%s %s) (= %s %s))", sn, x.t, h, l))), typ: ins.Type()}
+		rv := Val{t: vc.define(regName(ins), sn, vc.mkSlice(st, ins.Type(), arr, fmt.Sprintf("(- %s %s)", h, l), fmt.Sprintf("(and (nil_%s %s) (= %s %s))", sn, x.t, h, l))), typ: ins.Type()}
+		rv.backing = x.backing
+		if hi != "" && ins.Max == nil {
+			// a slice cut short keeps spare capacity inside the original: an append on it writes into the original
+			root := x
+			if x.resl != nil {
+				root = *x.resl
+			}
+			rv.resl = &root
+		}
+		fr.env[ins] = rv
 	default:
 		unsup("Slice of %v", ins.X.Type())
 	}
